@@ -156,10 +156,39 @@ def _outside_family(ctx, fn, conjuncts):
     return any(implies(t, pol) for t, pol in conjuncts)
 
 
+def _expand_named_conditions(cond, fn, defs, depth=0):
+    """a condition given a name (`valid = isinstance(n, int) and n >= 0; assert valid`) is read through: locals bound
+    exactly once (and no parameter) are replaced by the expression they name"""
+    import copy
+    if cond is None or depth > 3:
+        return cond
+    params = set(fn.params)
+
+    class Sub(ast.NodeTransformer):
+        changed = False
+
+        def visit_Name(self, n):
+            if isinstance(n.ctx, ast.Load) and n.id not in params:
+                vals = defs.get(n.id, [])
+                if len(vals) == 1 and not isinstance(vals[0], tuple) and isinstance(vals[0], (ast.BoolOp, ast.Compare, ast.UnaryOp, ast.Call)):
+                    Sub.changed = True
+                    return copy.deepcopy(vals[0])
+            return n
+    new = Sub().visit(copy.deepcopy(cond))
+    if Sub.changed:
+        return _expand_named_conditions(ast.fix_missing_locations(new), fn, defs, depth + 1)
+    return cond
+
+
 def category(ctx, f):
     fn = ctx.model.funcs[f.q]
     params = set(fn.params)
     defs = pat.local_defs(fn)
+    if f.cond is not None and not (isinstance(f.cond, ast.Name) and f.cond.id.startswith("<except")):
+        import copy
+        f = copy.copy(f)
+        f.cond = _expand_named_conditions(f.cond, fn, defs)
+        f.path = [(_expand_named_conditions(t, fn, defs), pol) for t, pol in f.path]
     if fn.name == "__eq__" and f.kind in ("assert", "raise") and fn.cls:
         # in the comparison itself a failed test is harmless only when it says "the other operand is not one of us"
         conj = list(f.path) + ([(f.cond, False)] if f.kind == "assert" else [])
@@ -456,10 +485,45 @@ def r07_6(ctx):
                 out.ok(q, f"`{seq}[.. % {m}]`", where=fn.where(n))
             elif ok is None:
                 out.undecided(q, f"`{seq}[.. % {m}]`: {why}", where=fn.where(n))
+            elif _lengths_equal_at_call_sites(ctx, fn, seq, m):
+                out.ok(q, f"`{seq}[.. % {m}]`: a private helper, every caller hands it sequences of equal length", where=fn.where(n))
             else:
                 out.bad(q, f"cyclic index of `{seq}` taken modulo the length of another sequence", where=fn.where(n),
                         detail=why + ": IndexError (or a wrong element) when the lengths differ")
     return out
+
+
+def _lengths_equal_at_call_sites(ctx, fn, seq, m):
+    """a private helper (cut out of a function that had established the fact) indexes its parameter `seq` modulo the
+    length of another parameter: accepted when every call site passes two sequences its caller has shown to be of equal
+    length"""
+    from verifkit.known_names import KNOWN
+    if not fn.name.startswith("_") or (fn.name.startswith("__") and fn.name.endswith("__")) or fn.name in KNOWN:
+        return False
+    if seq not in fn.params:
+        return False
+    others = [x for x in modidx.length_of(fn, m) if x in fn.params] if not m.startswith("len(") else \
+        [m[4:-1]] if m[4:-1] in fn.params else []
+    if not others:
+        return False
+    other = others[0]
+    i, j = fn.params.index(seq), fn.params.index(other)
+    sites = 0
+    for g in ctx.model.funcs.values():
+        inf = ctx.typer.of(g)
+        for c in ast.walk(g.node):
+            if isinstance(c, ast.Call) and any(t.qname == fn.qname for t in inf.targets(c, ("call",))):
+                off = 1 if (fn.kind in ("method", "getter", "setter", "class") and isinstance(c.func, ast.Attribute)) else 0
+                if any(isinstance(a, ast.Starred) for a in c.args) or c.keywords:
+                    return False
+                try:
+                    a, b = c.args[i - off], c.args[j - off]
+                except IndexError:
+                    return False
+                if not modidx.equal_lengths(g, U(a), U(b)):
+                    return False
+                sites += 1
+    return sites > 0
 
 
 class PtE(StandIn):
